@@ -15,6 +15,9 @@ CONSTANTS
   RealTime = FALSE
   CeilOnCut = TRUE
   CeilOnStore = TRUE
+  KindSet <- KindPos
+  Lats <- NoLat
+  CutAdmitsPast = FALSE
 INIT Init
 NEXT Next
 INVARIANTS TypeOK FollowsParent LeaseWithinGrant
